@@ -88,6 +88,19 @@ func TestCheck(t *testing.T) {
 		case "plain":
 			opts.ECH = hellogen.ECHNone
 			k.hello = hellogen.Plain(rng, opts)
+			// RFC 6066 leaves room for other name types in the server_name list: a TLS stack skips them
+			if si := k.hello.Find(tlswire.ExtSNI); si >= 0 && rng.IntN(6) == 0 && len(k.hello.Exts[si].Data) > 2 {
+				list := append([]byte{}, k.hello.Exts[si].Data[2:]...)
+				other := append([]byte{byte(1 + rng.IntN(255))}, 0, byte(1+rng.IntN(9)))
+				other = append(other, hellogen.Bytes(rng, int(other[2]))...)
+				if rng.IntN(2) == 0 {
+					list = append(other, list...)
+				} else {
+					list = append(list, other...)
+				}
+				k.hello.Exts[si].Data = append([]byte{byte(len(list) >> 8), byte(len(list))}, list...)
+				r.Count("plain_with_foreign_name_type", 1)
+			}
 			if rng.IntN(2) == 0 {
 				k.keys, keysetKind = unrelated(), "unrelated"
 			}
@@ -100,8 +113,20 @@ func TestCheck(t *testing.T) {
 				k.keys, keysetKind = unrelated(), "unrelated"
 			case 2:
 				// GREASE that happens to name an id we hold: must fail to decrypt and fall back
-				k.hello.Exts[k.hello.Find(tlswire.ExtECH)] = tlswire.ECHOuter(1, []uint16{1, 2, 3}[rng.IntN(3)], kp.ID, hellogen.Bytes(rng, 32), hellogen.Bytes(rng, 40+rng.IntN(200)))
+				// ... also with an encapsulated key that is no usable X25519 share (empty, wrong length, all zeros):
+				// nothing can be decrypted, so the hello is passed on
+				enc := hellogen.Bytes(rng, 32)
+				switch rng.IntN(8) {
+				case 0:
+					enc = nil
+				case 1:
+					enc = hellogen.Bytes(rng, []int{1, 31, 33, 65}[rng.IntN(4)])
+				case 2:
+					enc = make([]byte, 32)
+				}
+				k.hello.Exts[k.hello.Find(tlswire.ExtECH)] = tlswire.ECHOuter(1, []uint16{1, 2, 3}[rng.IntN(3)], kp.ID, enc, hellogen.Bytes(rng, 40+rng.IntN(200)))
 				k.keys, keysetKind = []ech.Key{kp.TLSKey()}, "same-id"
+				r.Count(fmt.Sprintf("grease_same_id_enc_len_%d", len(enc)), 1)
 			}
 		case "inner-marker-nokeys":
 			opts.ECH = hellogen.ECHInner
